@@ -336,10 +336,19 @@ pub fn oracle(ctx: &mut Ctx) {
             // colour-space metadata on an animation: the pre-pass that handles it runs before the one that
             // switches every transformation off for animations
             if prop == "C10" && rng.chance(1, 3) {
-                match rng.below(3) {
+                match rng.below(5) {
                     0 => pre.push((*b"iCCP", make_iccp(&gen_profile(&mut rng, 0)))),
                     1 => { pre.push((*b"iCCP", make_iccp(&gen_profile(&mut rng, 1)))); pre.push((*b"sRGB", vec![1])); }
-                    _ => pre.push((*b"sRGB", vec![0])),
+                    2 => pre.push((*b"sRGB", vec![0])),
+                    // profiles the pre-pass cannot read: a stream that does not inflate, an unknown compression method, and a
+                    // well-formed profile so compressible that it inflates to far more than a reader guessing the size
+                    // from the compressed length allows for
+                    3 => pre.push((*b"iCCP", match rng.below(3) {
+                        0 => b"broken\0\0\x01\x02\x03".to_vec(),
+                        1 => { let mut d = make_iccp(&gen_profile(&mut rng, 1)); d[4] = 1; d }
+                        _ => make_iccp(&vec![0u8; 6000 + rng.below(3000) as usize]),
+                    })),
+                    _ => pre.push((*b"iCCP", make_iccp(&gen_profile(&mut rng, 1)))),
                 }
                 st.count("animated_with_colour_space_chunks");
             }
